@@ -31,7 +31,7 @@ def norm(s):
                 del out[-2:]
                 stack.append(False)
                 removed_depth += 1
-            elif prev.isalnum() or prev in '_>]':
+            elif prev and (prev.isalnum() or prev in '_>]'):
                 stack.append(False)
                 removed_depth += 1
             else:
